@@ -180,8 +180,7 @@ def skip (asc : Bool) (p : List (Bytes × Bytes)) (c : Assoc (Option Bytes)) :
   match p, c with
   | [], c =>
     -- parent invalid: fast-forward the cache over its deletes
-    let c' := skipCacheDeletes asc none c
-    (([], c'), !c'.isEmpty)
+    (([], skipCacheDeletes asc none c), !(skipCacheDeletes asc none c).isEmpty)
   | p, [] => ((p, []), true)
   | (kp, vp) :: p', (kc, vc) :: c' =>
     match h : compare asc kp kc with
